@@ -51,6 +51,8 @@ func c02Alphabet() []Action {
 		cmd("EXPIRE", "a", "100"), cmd("HSET", "h", "f", "v"), cmd("LPUSH", "l", "x"), cmd("RPOP", "l"), cmd("SADD", "t", "m"),
 		cmd("ZADD", "z", "1", "m"), cmd("RENAME", "a", "b"), cmd("FLUSHDB"), cmd("SELECT", "1"), cmd("SELECT", "12"),
 		emb("SET", "a", "emb"), {K: "embsel", N: 12}, adv(3000),
+		// writes that mutate although they reply 0 / nothing new
+		cmd("DECR", "a"), cmd("HSET", "h", "f", "w"), cmd("ZADD", "z", "2", "m"), cmd("LSET", "l", "0", "q"),
 	}
 }
 
